@@ -4,7 +4,14 @@
          replays the emitted cycles (each given as its SORTED edge-id list) through TreesModel.mcb_sva_trees_replay_Z:
          ACCEPT <total> | REJECT <phase> [EMPTY] | REJECT-COUNT <given> <consumed> | MODEL-...
      first : <fvs|iso|horton> <graph> <r> roots <f> picks
-         the deterministic resolution: RET <total> N <n> CYC (<len> ids)* *)
+         the deterministic resolution: RET <total> N <n> CYC (<len> ids)*
+     run : <fvs|iso|horton> <graph> <r> roots <f> picks <c> order
+         the run AS EXECUTED (TreesFloatModel.mcb_sva_trees_go_Z: builder with the std::map default, the arrangement `order` left
+         by std::sort validated by ts_arrange, first answering candidate of the arranged scan, the loop that goes on):
+         RET <total> N <k> CYC (<len> ids)*k W <w>*k FND <bit>*k SG (<len> ids)*k ORDER <same|differs>
+         | MODEL-BADORDER | MODEL-NOCOLLECTION | MODEL-NOINDEX | MODEL-ERROR k
+         ORDER: whether mcb_sva_trees_order (the run in the vocabulary of SvaModel, what the theorems are stated about) is
+         SvaOk with the same cycles and total *)
 open Model
 open Common
 
@@ -47,5 +54,25 @@ let first t b =
   | TRun (SvaNoCycle k) -> pr_str b "MODEL-NOCYCLE "; pr_nat b k
   | TRun (SvaError k) -> pr_str b "MODEL-ERROR "; pr_nat b k
 
+let run t b =
+  let bld = builder_of (next t) in
+  let (g, ws, roots, picks) = read_case t in
+  let order = next_list t next_nat in
+  match mcb_sva_trees_go_Z bld g ws roots picks order with
+  | GoOk (phases, total, sup) ->
+      pr_str b "RET "; pr_z b total; pr_str b " N "; pr_int b (List.length phases); pr_str b " CYC";
+      List.iter (fun p -> pr_str b " "; pr_int b (List.length p.gp_cycle); pr_nats b p.gp_cycle) phases;
+      pr_str b " W"; List.iter (fun p -> pr_str b " "; pr_z b p.gp_weight) phases;
+      pr_str b " FND"; List.iter (fun p -> pr_str b (if p.gp_found then " 1" else " 0")) phases;
+      pr_str b " SG"; List.iter (fun p -> pr_str b " "; pr_int b (List.length p.gp_signed); pr_nats b p.gp_signed) phases;
+      pr_str b " ORDER ";
+      (match mcb_sva_trees_order Z0 Z.add Z.ltb bld g ws roots picks order with
+       | TRun (SvaOk (cs, w, sup')) when cs = List.map (fun p -> p.gp_cycle) phases && Z.eqb w total && sup' = sup -> pr_str b "same"
+       | _ -> pr_str b "differs")
+  | GoNoIndex -> pr_str b "MODEL-NOINDEX"
+  | GoNoCollection -> pr_str b "MODEL-NOCOLLECTION"
+  | GoBadOrder -> pr_str b "MODEL-BADORDER"
+  | GoError k -> pr_str b "MODEL-ERROR "; pr_nat b k
+
 let () = main [ ("fvsaccept", accept TbFvs); ("isoaccept", accept TbIso); ("hortonaccept", accept TbHorton);
-                ("first", first) ]
+                ("first", first); ("run", run) ]
